@@ -43,7 +43,9 @@ def build(E, tier):
     cm.verify_public_admin(E)
     cm.verify_fetch_many(E, names=("get", "gets"), iter_kinds=("re-iterable",))
     tables(E)
-    cm.verify_client_ctor(E, "C05")       # default_noreply (the documented default of the store family) is the constructor's argument
+    cm.verify_client_ctor(E, "C05")
+    from . import hashmany
+    hashmany.verify_aliases(E, "C05")       # default_noreply (the documented default of the store family) is the constructor's argument
 
 
 def tables(E):
